@@ -5,7 +5,7 @@ from .. import sut, world, driver
 from ..worldprop import base_outcome, completion, REAL_VS_STUB  # noqa
 
 ID = "C19"
-RUNS = {"quick": 6000, "thorough": 180000}
+RUNS = {"quick": 12000, "thorough": 180000}
 BUDGET = {"quick": 45, "thorough": 780}
 RULE = ("StochasticNetwork worlds: 1-4 stations, more simultaneous sessions than stations arriving in bursts, departures "
         "before admission, early_departure on/off with small demands, choice tape PRNG/first/last, uncontrolled/greedy/"
